@@ -295,9 +295,10 @@ func profC17() *RevProfile {
 	p.OCSPCountW = []int{15, 45, 25, 15}
 	p.CRLCountW = []int{25, 40, 25, 10}
 	p.EntryW = []int{70, 10, 20}
-	p.FetcherW = []int{40, 40, 20}
+	p.FetcherW = []int{35, 50, 15}
 	p.ConfigW = []int{20, 30, 20, 30}
 	p.PSrcFault = 40
+	p.DeltaPct = 45
 	p.CancelPct = 15
 	p.PanicPct = 15
 	p.Schedules = 4
@@ -316,6 +317,13 @@ func runC17(t *Tape, st *Stats, tier string) *RunResult {
 		prof.MaxCallers = 32
 	}
 	sc := GenRevScenario(t, prof)
+	if raceEnabled && len(sc.AltSeeds) > 1 {
+		// the race detector works on happens-before, not on the schedule that
+		// happened: under -race few schedules per scenario and many scenarios
+		// find more than the other way round. The tape is drawn identically in
+		// both builds; the race build merely uses fewer of the drawn vectors.
+		sc.AltSeeds = sc.AltSeeds[:1]
+	}
 	rr := &RunResult{}
 	rc := &ruleCtx{props: map[string]bool{"C17": true, "C11": true}, st: st, ante: map[string]bool{}, retag: map[string]string{"C11": "C17.R5"}}
 	seeds := append([]uint32{0}, sc.AltSeeds...)
@@ -378,7 +386,7 @@ func runC17(t *Tape, st *Stats, tier string) *RunResult {
 		}
 	}
 	// R5 (a): non-interference, each caller alone gets what it got in company
-	if len(obs0.Calls) > 1 && sc.timeInvariant() && sc.Fetcher != FetchRealCache {
+	if len(obs0.Calls) > 1 && sc.timeInvariant() && sc.Fetcher != FetchRealCache && !raceEnabled {
 		for _, w := range sc.Worlds {
 			alone := ExecRev(sc, 0, w.ID, nil)
 			st.Bubbles++
